@@ -45,6 +45,10 @@ EXPR_KINDS = {
     "sub": (lambda A, s: A["a" + s][A["x" + s]], [("a", "arr"), ("x", "num")]),
     "call": (lambda A, s: A["f" + s](A["x" + s]), [("f", "fn"), ("x", "num")]),
     "lsh": (lambda A, s: A["x" + s] << 1, [("x", "num")]),
+    # subscripting twice (a row of a nested container) and a two-index subscript
+    "subsub": (lambda A, s: A["n" + s][A["x" + s]][A["y" + s]], [("n", "nest"), ("x", "num"), ("y", "num")]),
+    "sub2ix": (lambda A, s: A["n" + s][A["x" + s], A["y" + s]], [("n", "nest"), ("x", "num"), ("y", "num")]),
+    "call0": (lambda A, s: A["f" + s](), [("f", "fn")]),
     # trees that pymbolic's own zero test (bool(node)) considers zero or that contain such a piece
     "zfdiv": (lambda A, s: 0 // A["x" + s], [("x", "num")]),
     "zmod": (lambda A, s: 0 % A["x" + s], [("x", "num")]),
@@ -136,6 +140,32 @@ def twins(tier):
     return [("twin", "sub_swapped"), ("twin", "mat_swapped")]
 
 
+# {{{ nested containers: a[i][j] is one function, a[i, j] another
+
+class Nested:
+    def __init__(self, name, fam, model=None):
+        self.name, self.fam, self.model = name, fam, model
+        self.rows = sym.UF(name + "[][]", fam)
+        self.flat = sym.UF(name + "[,]", fam)
+
+    def _f(self, uf):
+        return sym.ConcreteUF(uf, self.model) if self.model is not None else uf
+
+    def __getitem__(self, idx):
+        if isinstance(idx, tuple):
+            return self._f(self.flat)(*idx)
+        outer = self
+
+        class Row:
+            def __getitem__(self_, j):
+                if isinstance(j, tuple):
+                    raise TypeError("row indexed by a tuple")
+                return outer._f(outer.rows)(idx, j)
+        return Row()
+
+# }}}
+
+
 # {{{ 2x2 matrices of proxies (non-commutative ring)
 
 class Mat2:
@@ -220,6 +250,8 @@ def _mk_atoms(atom_list, fam):
             v, cs = sym.UF(name, fam), []
         elif typ == "arr":
             v, cs = sym.UFArray(name, fam), []
+        elif typ == "nest":
+            v, cs = Nested(name, fam), []
         elif typ == "mat":
             es = []
             cs = []
@@ -410,6 +442,9 @@ def _concretise(env, model, exact):
     for k, v in env.items():
         if isinstance(v, Mat2):
             out[k] = Mat2(*[sym.model_value(model, e) for e in v.e])
+        elif isinstance(v, Nested):
+            out[k] = Nested(v.name, v.fam, model)
+            out[k].rows, out[k].flat = v.rows, v.flat
         else:
             out.update(H.concretise_env({k: v}, model, exact=exact))
     return out
